@@ -285,6 +285,22 @@ def literal_len(a, ty):
     return p.const_value() if p.is_const() else None
 
 
+def is_whole_array_conversion(c, to_ga):
+    """The crate's by-value conversions between `[T; k]` and `GenericArray<T, U<k>>` (C02.T judges their bodies): the const fns from_array /
+    into_array, or the `From` impls for native arrays reached through `From::from` / `Into::into` (std's blanket `Into` is `U::from(self)`)."""
+    if c.fn == ("GenericArray::<T, N>::from_array" if to_ga else "GenericArray::<T, N>::into_array"):
+        return True
+    ta = [t for t in (c.targs or []) if t.get("k") != "region"]
+    if c.fn == "core::convert::From::from" and len(ta) >= 2:
+        dst, src = ta[0], ta[1]
+    elif c.fn == "core::convert::Into::into" and len(ta) >= 2:
+        src, dst = ta[0], ta[1]
+    else:
+        return False
+    arr, ga = (src, dst) if to_ga else (dst, src)
+    return arr.get("k") == "array" and is_ga(ga) and tstr(arr.get("t")) == tstr(adt_args(ga)[0])
+
+
 def check_tuples(ctx, cfg):
     rule = "C02.P"
     db = ctx.db(cfg)
@@ -302,7 +318,7 @@ def check_tuples(ctx, cfg):
             pc = payload_calls(a)
             ok = False
             det = ""
-            if len(pc) == 1 and pc[0].fn == "GenericArray::<T, N>::from_array" and pc[0].args[0][0] == "A" and pc[0].args[0][1] == "array":
+            if len(pc) == 1 and is_whole_array_conversion(pc[0], to_ga=True) and pc[0].args[0][0] == "A" and pc[0].args[0][1] == "array":
                 ops = pc[0].args[0][2]
                 good = [ops[i] == ("V", "proj", ("proj", ("V", "arg", 1), (i,))) for i in range(len(ops))]
                 ok = len(ops) == arity == want_len and all(good) and all(r["val"] == pc[0].ret for r in a.returns)
@@ -317,7 +333,7 @@ def check_tuples(ctx, cfg):
             want_len = literal_len(a, adt_args(src)[1])
             pc = payload_calls(a)
             ok = False
-            if len(pc) == 1 and pc[0].fn == "GenericArray::<T, N>::into_array" and pc[0].args[0] == ("V", "arg", 1):
+            if len(pc) == 1 and is_whole_array_conversion(pc[0], to_ga=False) and pc[0].args[0] == ("V", "arg", 1):
                 ret = pc[0].ret
                 rv = [r["val"] for r in a.returns]
                 ok = bool(rv) and all(v[0] == "A" and v[1] == "tuple" and len(v[2]) == arity == want_len and
